@@ -9,6 +9,8 @@ import Drivers.Common
   truth <ctx> <A>                       → t | f | none
   spec  <op> <A> <B> <pow>              → documented result, or `undoc`
   specun <op> <A>                       → same
+  kind  <op>                            → <fixed result kind|-> <always a value 0|1> <number 0|1>   (Spec.Ops.fixedKind …)
+  kindun <op>                           → same for a unary operator / cast
 
 Operands: `i:<dec>` · `f:<bits16>:<hex of AsString>` · `s:<hex>:<ParseFloat bits|->:<Atoi|->` ·
 `b:0|1` · `n` · `a:<len>:<hex of AsString>` · `o:<props>:<hex>` · `c:<props>:<hex>`.  `<pow>` = `-` or `<xbits>,<ybits>,<rbits>`
@@ -170,6 +172,12 @@ def parsePow (s : String) : Option (Option (UInt64 × UInt64 × UInt64)) :=
 
 def T := Generated.C03Truthiness.table
 
+def showKind : Option Kind → String
+  | some .str => "s" | some .bool => "b" | some .int => "i" | some .float => "f"
+  | some .null => "n" | some .arr => "a" | some .obj => "o" | some .cls => "c" | none => "-"
+
+def flag (b : Bool) : String := if b then "1" else "0"
+
 def handle (line : String) : String :=
   match line.splitOn "\t" with
   | ["bin", op, same, a, b, pw] =>
@@ -196,6 +204,14 @@ def handle (line : String) : String :=
           | some r => showRes r
           | none => "undoc"
       | _, _, _, _ => "bad-request"
+  | ["kind", op] =>
+      match parseBin op with
+      | some op => showKind (Spec.Ops.fixedKind op) ++ " " ++ flag (Spec.Ops.alwaysValue op) ++ " " ++ flag (Spec.Ops.numericResult op)
+      | none => "bad-request"
+  | ["kindun", op] =>
+      match parseUn op with
+      | some op => showKind (Spec.Ops.fixedKindUn op) ++ " " ++ flag (Spec.Ops.alwaysValueUn op) ++ " " ++ flag (op == .neg)
+      | none => "bad-request"
   | ["specun", op, a] =>
       match parseUn op, parseOperand a with
       | some op, some a =>
